@@ -43,6 +43,7 @@ def run(ctx):
     check_set(ctx, prog)
     check_size_shortcuts(ctx, prog)
     check_dup(ctx, prog)
+    check_table_owner(ctx, prog)
     check_share(ctx, prog)
     check_enum_range(ctx, prog)
     # value-returning const members of the map / set classes build a new container (never hand out `*this` or an argument)
@@ -823,6 +824,62 @@ def check_dup(ctx, prog):
         else:
             ctx.ok('C02.dup', f['pq'], role, fwhere(f), 'hand-written chain copy: every link store in a loop goes through a tail the loop advances, the count is set (necessary conditions only)')
     ctx.floor('C02.dup', n, 1)
+
+
+def check_table_owner(ctx, prog):
+    """C02.tablesize: the number of buckets changes only where every entry is (re)placed for the new size: in the constructors,
+    rehash(), dup() and the handle assignment, or in non-public helpers only these call.  Any other member that resizes,
+    reserves, assigns or swaps the bucket array leaves entries in chains chosen for the old size (and, when it grows the
+    array, buckets that were never set to 0)."""
+    allowed = set(('rehash', 'dup', 'operator=', 'clone'))
+    members = [f for f in prog.functions if f.get('clsp') == 'asl::HashMap' and f.get('body') and not f.get('implicit') and 'Enumerator' not in (f.get('cls') or '')]
+
+    def resizes(f):
+        out = []
+        for e in fn_exprs(f):
+            if e.get('k') == 'call' and e.get('obj') is not None and (e.get('pq') or '') in ('asl::Array::resize', 'asl::Array::reserve', 'asl::Array::operator=', 'asl::Array::clear', 'asl::Array::operator<<', 'asl::Array::insert', 'asl::Array::remove'):
+                o = strip_lv(e['obj'])
+                if o.get('k') == 'mem' and o.get('f') == 'a' and strip_lv(o.get('b') or {'k': 'this'}).get('k') == 'this':
+                    out.append(e)
+            if e.get('k') == 'call' and (e.get('pq') or e.get('fn') or '').split('<')[0].split('::')[-1] == 'swap' and any(
+                    strip_lv(a).get('k') == 'mem' and strip_lv(a).get('f') == 'a' and strip_lv(strip_lv(a).get('b') or {'k': 'this'}).get('k') == 'this' for a in e.get('a') or []):
+                out.append(e)
+        return out
+    callers = {}
+    for f in members:
+        for e in fn_exprs(f):
+            if e.get('k') == 'call' and e.get('clsp') == 'asl::HashMap' and (e.get('obj') is None or strip_lv(e['obj']).get('k') == 'this'):
+                callers.setdefault(e.get('pq'), set()).add('<ctor>' if f.get('kind') in ('ctor', 'dtor') else f['n'])
+    ok_names = set(allowed)
+    grew = True
+    while grew:
+        grew = False
+        for f in members:
+            if f['n'] in ok_names or f.get('kind') in ('ctor', 'dtor') or f.get('acc') not in ('private', 'protected'):
+                continue
+            cs = callers.get(f.get('pq'))
+            if cs and all(c == '<ctor>' or c in ok_names for c in cs):
+                ok_names.add(f['n'])
+                grew = True
+    n = 0
+    seen = set()
+    for f in members:
+        rs = resizes(f)
+        if not rs:
+            continue
+        if f.get('kind') in ('ctor', 'dtor') or f['n'] in ok_names:
+            n += 1
+            continue
+        if f['pq'] in seen:
+            continue
+        seen.add(f['pq'])
+        n += 1
+        ctx.analysed(f)
+        ctx.violation('C02.tablesize', f['pq'], '%s%s:bucket array sized only where entries are placed' % (f['n'], f.get('sig') or ''), fwhere(f, rs[0].get('l')),
+                      '%s changes the bucket array (`%s`) outside construction and rehash(): entries keep the chains chosen for the old size, and buckets added by a growing resize are never cleared - lookups follow garbage chain pointers' % (f['n'], pe(rs[0])[:60]))
+    if n and not any(o.rule == 'C02.tablesize' and o.status == 'violation' for o in ctx.obligations):
+        ctx.ok('C02.tablesize', 'asl::HashMap', 'bucket array sized only where entries are placed', '', '%d member instantiation(s) size the table: constructors, rehash(), dup(), operator= and their private helpers only' % n)
+    ctx.floor('C02.tablesize', n, 2)
 
 
 def check_share(ctx, prog):
